@@ -64,6 +64,17 @@ CHECKS = {
             "on every request (flags, parameters, digest over the datagram as sent, decryption, usmStats) and whose authentic "
             "minimal-BER responses are the oracle.",
             "deterministic simulation: independent USM agent verdicts over seeded password/engine/length sweeps"),
+    "C11": ("exploration", "6 C11",
+            "Harness privacy plug-ins (a length-preserving and a length-changing keyed stream transform) are loaded by puresnmp's "
+            "own loader and record every call; wire bytes, plug-in arguments and the independently derived localised key are "
+            "compared per exchange, with a slow agent so that response time/salt differ from the request's.",
+            "deterministic simulation: recording privacy plug-in at the plug-in seam, wire vs. plug-in vs. reference-key oracle"),
+    "C12": ("exploration", "6 C12",
+            "Seeded histories on one client interleaving requests with virtual time passing (seconds to 30 days), agent reboots "
+            "(crash/restart of the only durable state, snmpEngineBoots), clock steps and slow answers, at all security levels, "
+            "plus faulty discovery replies; the reference agent's time-window verdict over the history is the oracle, with "
+            "bounded recovery after a discontinuity instead of impossible demands.",
+            "deterministic simulation: virtual time (years per run), agent reboot/clock-step faults, history oracle with bounded recovery"),
 }
 
 NOT_APPLICABLE = {
